@@ -13,8 +13,8 @@ from typing import Dict, List, Optional
 from .model import AnalysisError
 
 VERIF = Path(__file__).resolve().parent.parent
-EVIDENCE_DIR = VERIF / "evidence"
-REPLAY_DIR = VERIF / "replays"
+EVIDENCE_DIR = Path(os.environ.get("HVSA_EVIDENCE_DIR", str(VERIF / "evidence")))
+REPLAY_DIR = Path(os.environ["HVSA_EVIDENCE_DIR"]) / "replays" if os.environ.get("HVSA_EVIDENCE_DIR") else VERIF / "replays"
 KNOWN_FINDINGS = VERIF / "KNOWN_FINDINGS.txt"
 
 MODEL_ASSUMPTIONS = [
@@ -141,7 +141,7 @@ class Checker:
         return status
 
     def _write_replay(self, f: Finding) -> str:
-        REPLAY_DIR.mkdir(exist_ok=True)
+        REPLAY_DIR.mkdir(parents=True, exist_ok=True)
         p = REPLAY_DIR / f"{self.prop}-{f.digest}.json"
         p.write_text(json.dumps({
             "property": self.prop, "rule": f.rule, "rule_text": self.rules_text.get(f.rule, ""),
@@ -152,7 +152,7 @@ class Checker:
         return str(p)
 
     def _write_evidence(self, n_new: int, n_known: int):
-        EVIDENCE_DIR.mkdir(exist_ok=True)
+        EVIDENCE_DIR.mkdir(parents=True, exist_ok=True)
         distinct = {(i.rule, i.where, i.what) for i in self.instances if i.nontrivial}
         samples = []
         seen_rules = {}
@@ -235,7 +235,7 @@ def run_guarded(prop: str, tier: str, fn) -> int:
 
 
 def _fallback_evidence(prop, tier, err, t0):
-    EVIDENCE_DIR.mkdir(exist_ok=True)
+    EVIDENCE_DIR.mkdir(parents=True, exist_ok=True)
     ev = {"property_id": prop, "tier": tier, "seed": int(os.environ.get("VERIF_SEED", "0") or 0),
           "level": "other",
           "coverage": {"explanation": f"analysis aborted: {err}", "evaluations": 0, "distinct_nontrivial": 0,
